@@ -1391,6 +1391,9 @@ def c13_run(rep, rng, tier, term):
     covered = set()
     vals = impl.build_values(rng, 120 if tier == 'quick' else 5000, odd=False)
     impl.drain_unobservable()
+    # ... and values whose TEXT carries pieces of control sequences (the two classes must still do the same: F44)
+    vals += impl.build_values(rng, 40 if tier == 'quick' else 1500, odd=False, esc=0.6)
+    impl.drain_unobservable()
     # constructor from text that already CONTAINS escape sequences (also sequences that leave no setting behind: a lone
     # reset, unknown codes, a style switched on and off before any text, a sequence after the last character)
     fixed_ansi = ['\x1b[0mabc', '\x1b[mabc', 'abc\x1b[0m', 'a\x1b[0mbc', '\x1b[99mabc', '\x1b[31m\x1b[0mabc', 'abc\x1b[31m', '\x1b[31mabc',
